@@ -127,7 +127,17 @@ func c09SpecialSeq(g *gen.G, which int) *c09Seq {
 	case 6:
 		// an earlier change puts captured code under an operator that needs parentheses around it; the later change
 		// spells those parentheses: it matches the file the earlier change would write, so it matches in the combined run
-		switch g.R.Intn(3) {
+		switch g.R.Intn(5) {
+		case 3:
+			// the replacement itself is an operator expression and lands under an operator of the untouched code that
+			// binds tighter: the parentheses stand between untouched parent and generated child
+			c1 := mk("expr", "c09-generates-operator-expression", x, nil, "isEmpty(«x»)", "len(«x») == 0")
+			c2 := mk("expr", "c09-spells-the-parentheses", y, nil, "!(len(«y») == 0)", "len(«y») > 0")
+			return &c09Seq{changes: []*gen.Change{c1, c2}, roles: []string{"generates-operator-expression", "spells-the-parentheses"}, base: c1, extra: []string{"!isEmpty(%s)", "!isEmpty(%s.list)"}}
+		case 4:
+			c1 := mk("expr", "c09-generates-operator-expression", x, nil, "twice(«x»)", "«x» + «x»")
+			c2 := mk("expr", "c09-spells-the-parentheses", y, nil, "2 * («y» + «y»)", "4 * «y»")
+			return &c09Seq{changes: []*gen.Change{c1, c2}, roles: []string{"generates-operator-expression", "spells-the-parentheses"}, base: c1, extra: []string{"2 * twice(%s)", "2 * twice(%s.n)"}}
 		case 0:
 			c1 := mk("expr", "c09-generates-under-operator", x, nil, "scale(«x»)", "2 * «x»")
 			c2 := mk("expr", "c09-spells-the-parentheses", y, nil, "2 * («y»)", "double(«y»)")
